@@ -398,6 +398,9 @@ def _case_value(prog, ent, case_name, case):
         for c in calls:
             if len(c["args"]) >= 2 and c["args"][0] is not None and not A.is_form(c["args"][0]) and c["args"][0][0] == "str":
                 out[c["args"][0][1]] = c["args"][1]
+            elif len(c["args"]) >= 2:
+                # a write whose key the evaluator could not determine: the collection is partial
+                _case_value.incomplete.append(f"a {c['name']}() call at line {c.get('line')} has a key the evaluator could not determine")
         return ("struct", out)
     if ent.get("collect") == "list":
         # the first argument of every watched call, in call order
